@@ -217,6 +217,65 @@ fn check_type(ty: SignType, name: &str, expect: Option<(u8, u8, u32, u32)>, rep:
             }
         }
     }
+    // ... and a block of the SAME family and id whose size bytes are off (it decodes to the same type: only the first two
+    // bytes decide that) followed, without a reset, by the genuine block: what counts is the last block — the sign reports
+    // this type AND stores pages of this type's size
+    if block.len() == 16 && w > 0 && h > 0 {
+        let own = 0x0025u16;
+        let img = RefPage::new(6, w, h).image();
+        for tweak in 0..3usize {
+            let mut off = block.clone();
+            match (block[0], tweak) {
+                (4, 0) => off[5] = off[5].wrapping_add(1),
+                (4, 1) => off[4] = off[4].wrapping_add(8),
+                (4, _) => off[7] = 0,
+                (_, 0) => off[7] = off[7].wrapping_add(1),
+                (_, 1) => off[5] = off[5].wrapping_add(8),
+                (_, _) => off[7] = off[7] / 2,
+            }
+            if off == block {
+                continue;
+            }
+            for variant in 0..2 {
+                let mut msgs = vec![RefMsg::Request(own, O_RECV_CFG), RefMsg::Data { offset: 0, data: off.clone() }];
+                if variant == 0 {
+                    msgs.push(RefMsg::Data { offset: 0, data: block.clone() });
+                    msgs.push(RefMsg::Count(2));
+                } else {
+                    msgs.push(RefMsg::Count(2)); // wrong count: the configuration fails and is tried again
+                    msgs.push(RefMsg::Query(own));
+                    msgs.push(RefMsg::Request(own, O_RECV_CFG));
+                    msgs.push(RefMsg::Data { offset: 0, data: block.clone() });
+                    msgs.push(RefMsg::Count(1));
+                }
+                msgs.push(RefMsg::Query(own));
+                msgs.push(RefMsg::Request(own, O_RECV_PIX));
+                msgs.extend(img.chunks(16).enumerate().map(|(i, c)| RefMsg::Data { offset: (i * 16) as u16, data: c.to_vec() }));
+                msgs.push(RefMsg::Count(img.len().div_ceil(16) as u16));
+                msgs.push(RefMsg::Query(own));
+                let mut pair = Pair::new(own, false);
+                let mut trouble: Option<String> = None;
+                for m in &msgs {
+                    let out = vsx::step(&mut pair, m);
+                    if out.panic.is_some() {
+                        trouble = Some("panicked".into());
+                        break;
+                    }
+                    if let Some((cls, d)) = out.diffs.first() {
+                        trouble = Some(format!("{}: {}", cls, d));
+                        break;
+                    }
+                }
+                rep.count("virtual_sign_off_size_block_before_the_genuine_one");
+                let pages = pair.sign.pages();
+                let stored_ok = pages.len() == 1 && pages[0].width() == w && pages[0].height() == h && pages[0].as_bytes() == &img[..];
+                if trouble.is_some() || pair.sign.sign_type() != Some(ty) || !stored_ok {
+                    let what = format!("after a block of this family and id with other size bytes and then the genuine block ({}), the virtual sign records type {:?} and holds {} page(s) of {:?}{}", if variant == 0 { "same transfer" } else { "retry after a failed configuration" }, pair.sign.sign_type(), pages.len(), pages.first().map(|p| (p.width(), p.height())), trouble.map(|t| format!(" ({})", t)).unwrap_or_default());
+                    rep.violation(MON_T, "virtual_sign_keeps_dimensions_of_an_earlier_block", &format!("{}:{}:{}", name, tweak, variant), format!("{}: {}", name, what), J::obj(vec![("type", J::s(name)), ("off_size_block", J::hex(&off)), ("history", J::Arr(msgs.iter().take(9).map(|m| J::s(m.show())).collect())), ("observed", J::s(what.clone()))]));
+                }
+            }
+        }
+    }
     // ... whereas a 16-byte chunk the sign does NOT TAKE for a configuration block at all (its first byte is neither of the
     // two families: noise on the bus, a damaged copy of the block) changes nothing: the sign goes on to report this type
     // and this type's dimensions — in the same transfer (count 1: the chunk was not counted) and on a retry
@@ -560,6 +619,7 @@ pub fn run(ctx: &Ctx) -> Outcome {
         floor("recorded type followed through failed / abandoned / completed pixel transfers, for every type", report.get("virtual_sign_type_through_pixel_transfers") == 44 && report.get("virtual_sign_repeat_stored_a_page") >= 22, report.get("virtual_sign_type_through_pixel_transfers")),
         floor("a sign configured by a controller of every other type, then by a controller of this type (11 x 10 x 2)", report.get("controller_reconfigurations") == 220, report.get("controller_reconfigurations")),
         floor("a 16-byte chunk of neither family next to the block, for every type", report.get("virtual_sign_noise_chunk_next_to_the_block") >= 11 * 14, report.get("virtual_sign_noise_chunk_next_to_the_block")),
+        floor("a block of the same family and id with other size bytes before the genuine block, then a page of the genuine size, for every type", report.get("virtual_sign_off_size_block_before_the_genuine_one") >= 11 * 4, report.get("virtual_sign_off_size_block_before_the_genuine_one")),
         floor("an unsupported block after a supported one, for every type", report.get("virtual_sign_unsupported_block_after_supported") >= 44, report.get("virtual_sign_unsupported_block_after_supported")),
         floor("virtual sign reconfigured from every other type (11 x 10 x 2 histories)", report.get("virtual_sign_reconfigurations") == 220, report.get("virtual_sign_reconfigurations")),
         floor("virtual sign configured with every type's block", report.get("virtual_sign_configurations") >= 11, report.get("virtual_sign_configurations")),
